@@ -5,10 +5,11 @@ import json, os, re, shutil, sys
 
 VERIF = os.path.dirname(os.path.dirname(os.path.abspath(__file__)))
 src, n, pid, kind = sys.argv[1], sys.argv[2], sys.argv[3], sys.argv[4]
+rnd = os.environ.get("ROUND", "3")
 k = 1
-while os.path.exists(os.path.join(VERIF, "seeded", f"r3-{pid}-{k}")):
+while os.path.exists(os.path.join(VERIF, "seeded", f"r{rnd}-{pid}-{k}")):
     k += 1
-sid = f"r3-{pid}-{k}"
+sid = f"r{rnd}-{pid}-{k}"
 dst = os.path.join(VERIF, "seeded", sid)
 os.makedirs(dst)
 shutil.copy(os.path.join(src, f"change{n}.diff"), os.path.join(dst, "patch.diff"))
@@ -18,6 +19,6 @@ m = re.search(rf"(^##\s*change{n}\b.*?)(?=^##\s*change\d|\Z)", notes, re.S | re.
 sec = m.group(1).strip() if m else notes
 open(os.path.join(dst, "notes.md"), "w").write(sec + "\n")
 json.dump({"seed": sid, "property": pid, "kind": kind,
-           "produced_by": "independent sub-agent (third round) given only the property texts, the git history and a scratch worktree of /repo"},
+           "produced_by": f"independent sub-agent (round {rnd}) given only the property texts, the git history and a scratch worktree of /repo"},
           open(os.path.join(dst, "meta.json"), "w"), indent=1)
 print(sid)
